@@ -90,6 +90,7 @@ func TestVerif_C28(t *testing.T) {
 	}
 
 	// judge gives a snapshot + its transactions to the kernel batch rules and applies the oracle
+	viaNode := false // judge through validateSnapshotTransaction (bodies read from the store) instead of validateKernelSnapshot
 	judge := func(class string, chainId crypto.Hash, ts uint64, txs []*common.VersionedTransaction) {
 		for _, finalized := range []bool{false, true} {
 			s := &common.Snapshot{Version: common.SnapshotVersionCommonEncoding, NodeId: chainId, RoundNumber: 1 + uint64(rng.Intn(5)), Timestamp: ts}
@@ -105,7 +106,17 @@ func TestVerif_C28(t *testing.T) {
 			s.Hash = s.PayloadHash()
 			last, _ := f.node.persistStore.ReadLastConsensusSnapshot()
 			var err error
-			panicked, pv, _ := verifkit.Guard(func() { err = f.node.validateKernelSnapshot(s, found, finalized) })
+			panicked, pv, _ := verifkit.Guard(func() {
+				if viaNode {
+					var missing []crypto.Hash
+					_, missing, err = f.node.validateSnapshotTransaction(s, finalized)
+					if err == nil && len(missing) > 0 {
+						err = fmt.Errorf("missing transactions")
+					}
+				} else {
+					err = f.node.validateKernelSnapshot(s, found, finalized)
+				}
+			})
 			r.Eval()
 			verdict := "rejected"
 			if panicked {
@@ -269,6 +280,21 @@ func TestVerif_C28(t *testing.T) {
 			if rmTx != nil {
 				judge("replay-older-operation", rmChain, ts2+1, []*common.VersionedTransaction{rmTx})
 			}
+			// the same through the node's snapshot-transaction validation, which reads the (already finalized)
+			// bodies from the store: another chain's snapshot repeating finalized transactions
+			viaNode = true
+			other := f.net.NodeIds[rng.Intn(len(f.net.NodeIds))]
+			if len(pool) > 0 {
+				judge("stored:finalized-op-after-batchable", other, ts2+2, []*common.VersionedTransaction{pool[0], cuTx})
+				judge("stored:finalized-op-before-batchable", other, ts2+2, []*common.VersionedTransaction{cuTx, pool[len(pool)-1]})
+			}
+			if len(pool) > 1 {
+				judge("stored:batchable-only", other, ts2+2, []*common.VersionedTransaction{pool[0], pool[1]})
+			}
+			if rmTx != nil {
+				judge("stored:replay-older-operation", other, ts2+3, []*common.VersionedTransaction{rmTx})
+			}
+			viaNode = false
 		}
 	}
 	opsFirst := len(chainOps)
